@@ -457,6 +457,55 @@ class NC:
             return res
         return blk(0)
 
+    def definitely_returns(self, f, ctx):
+        """True when, in frame ctx, one path from the entry of f to a return is certain: every branch condition on it is decided and
+        holds, every in-crate callee on it certainly returns, every other callee is a total f64 method or a range test, and the path
+        crosses no back edge.  (False = not shown, not "cannot".)"""
+        edges, calls, back, dead = self.info(f)
+        cfg = f.cfg
+        memo = {}
+        other = {}
+        for c in f.calls():
+            if c.path is None or (c.path not in self.prog.pdb.bodies and not is_f64_method(c.path) and
+                                  not c.path.endswith('::contains') and not is_fmt_path(c.path)):
+                other.setdefault(c.bb, []).append(c)
+
+        def blk(b):
+            if b in memo:
+                return bool(memo[b])
+            if b in dead:
+                memo[b] = False
+                return False
+            if b in cfg.returns:
+                memo[b] = True
+                return True
+            memo[b] = False
+            if other.get(b):
+                return False
+            for c in calls.get(b, []):
+                if ctx.depth >= self.max_depth:
+                    return False
+                h = self.prog.func(c.path)
+                if h is None or not self.definitely_returns(h, Frame(h, tuple(c.args), ctx, depth=ctx.depth + 1)):
+                    return False
+            conds = {}
+            for d, g in edges.get(b, []):
+                conds.setdefault(d, []).append(g)
+            for s_ in cfg.succ[b]:
+                if (b, s_) in back:
+                    continue
+                gl = conds.get(s_)
+                if gl is not None:
+                    if len(gl) != 1 or guard_value(gl[0], ctx) is not True:
+                        continue
+                elif len([x for x in cfg.succ[b] if x not in dead]) > 1:
+                    continue          # an unconditioned multi-way branch: not decided
+                if blk(s_):
+                    memo[b] = True
+                    return True
+            return False
+        return blk(0)
+
     # ---- atoms of the entry frame that the conditions (own and callees') depend on
     def atoms(self, f):
         out = {}
@@ -502,6 +551,10 @@ class NC:
                         visit(h, frames + [tuple(c.args)], depth + 1)
         visit(f, [], 0)
         return out
+
+
+def is_fmt_path(p):
+    return p.startswith('core::fmt') or p.startswith('std::fmt') or 'fmt::Arguments' in p
 
 
 def _children(t):
@@ -685,3 +738,38 @@ def check_returns(prog, rep, rule, keys, domain=None, what='', ncx=None, extra=N
 def positive_sizes(env, at):
     """domain: every unsigned atom (a length, a count) is at least 1"""
     return all(env[n] >= 1 for n in env if at[n][0] == 'uint')
+
+
+def check_rejects(prog, rep, rule, key_fn, witnesses, what, ncx=None):
+    """one obligation: for every witness (dict parameter name -> value) outside the function's domain the call must not certainly
+    return; a witness on which a return is certain is the violation"""
+    from .framework import site_of
+    ncx = ncx or NC(prog)
+    f = prog.func(key_fn)
+    key = '%s:%s' % (rule, key_fn)
+    if f is None:
+        rep.viol(rule, key, 'function disappeared')
+        return
+    rep.touch(key_fn)
+    names = {f.names.get(i): i for i in range(1, f.body.arg_count + 1)}
+    refuted, shown = 0, 0
+    for w in witnesses:
+        env = {('arg', names[n], None): v for n, v in w.items() if n in names}
+        if len(env) != len(w):
+            continue
+        ctx = Frame(f, env=env)
+        if ncx.definitely_returns(f, ctx):
+            rep.viol(rule, key, '%s(%s) certainly returns a value: every test on the way holds for this argument, %s' % (
+                short(key_fn), ', '.join('%s = %r' % kv for kv in sorted(w.items())), what), site_of(f.body))
+            for k in ncx.visited:
+                rep.touch(k)
+            return
+        shown += 1
+        if ncx.cannot_return(f, Frame(f, env=env), []):
+            refuted += 1
+    for k in ncx.visited:
+        rep.touch(k)
+    if shown and refuted == shown:
+        rep.ok(rule, key, 'cannot return on any of the %d witnesses outside the domain' % shown)
+    else:
+        rep.undecided(rule, key, 'rejection shown on %d of %d witnesses outside the domain (no certain return on the others)' % (refuted, shown), site_of(f.body), proof=False)
